@@ -28,7 +28,7 @@ TIERS = {
                      traceruns=12, tracesteps=600),
 }
 
-TRACE_UNIV = dict(macs=["m%d" % i for i in range(1, 8)], pool=list(range(1, 11)), outs=[11, 12], gw=0, far=13,
+TRACE_UNIV = dict(macs=["m%d" % i for i in range(1, 9)], pool=list(range(1, 9)), outs=[9, 10], gw=0, far=11,
                   reqhosts=["", "h1", "h2", "h3"], stathosts=["", "h1", "h2", "h4"])
 
 
@@ -166,9 +166,9 @@ def classify(rec):
 
     static_out = any(l[2] == 3 and l[1] in outs for l in ls) and not any(l[1] == pool0 for l in ls)
     if act == "Restart" and why == "state" and not (newprob - {"disk:differs"} - ({"bitset:+0"} if static_out else set())):
-        # leases that were never acknowledged come back with a generated name
+        # dynamic leases without a host name come back with a generated one
         disk = rec.get("srcdisk") or []
-        want_ls = [[l[0], l[1], l[2], ("g%d" % l[1]) if (l[2] == 0 and l[3] == "") else l[3]] for l in disk]
+        want_ls = [[l[0], l[1], l[2], ("g%d" % l[1]) if (l[2] < 2 and l[3] == "") else l[3]] for l in disk]
         if _ms(want_ls) == _ms(ls) and _ms(ls) != _ms(disk):
             return "restart-names-unacked-lease"
     return None
